@@ -74,6 +74,16 @@ def m_special_decimal(case: dict, xd: dict, what: str) -> bool:
     return has_pred and any(is_special_decimal(x) for x in decimals_reaching(case, xd))
 
 
+def m_snan_in_unique_items(case: dict, xd: dict, what: str) -> bool:
+    """D30: UniqueItems somewhere in the validator, a signalling Decimal NaN somewhere in the input (it only raises when
+    it sits inside one of two or more unhashable items that are compared), outcome InvalidOperation"""
+    if "InvalidOperation" not in what:
+        return False
+    if not any(d.get("k") == "UniqueItems" for d in walk(vdesc(case))):
+        return False
+    return any(d.get("t") == "decimal" and d.get("k") == "snan" for d in walk(xd))
+
+
 def m_naive_aware(case: dict, xd: dict, what: str) -> bool:
     """D3: Min/Max bound and value differ in timezone-awareness"""
     if "TypeError" not in what:
@@ -186,6 +196,7 @@ MATCHERS: Dict[str, Callable[[dict, dict, str], bool]] = {
     "label_collision_in_schema": m_label_collision,
     "container_pred_on_payload": m_container_pred_on_payload,
     "special_decimal": m_special_decimal,
+    "snan_in_unique_items": m_snan_in_unique_items,
     "naive_aware": m_naive_aware,
 }
 
